@@ -7,7 +7,9 @@ package main
 
 import (
 	"fmt"
+	"go/constant"
 	"go/token"
+	"go/types"
 	"strings"
 
 	"gclverify/xt/ssa"
@@ -228,6 +230,56 @@ func impliedBy(a, b canonCond, tb bool) (bool, bool) {
 	return false, false
 }
 
+// evalOnPath decides an == / != comparison from the values its operands have on the path (phis resolved): two
+// constants, or nil against a value that is never nil (a freshly made channel, map, slice, closure, allocation, function).
+func evalOnPath(pa *Path, c ssa.Value, step int) (bool, bool) {
+	b, ok := c.(*ssa.BinOp)
+	if !ok || (b.Op != token.EQL && b.Op != token.NEQ) {
+		return false, false
+	}
+	_, px := strip(b.X, false).(*ssa.Phi)
+	_, py := strip(b.Y, false).(*ssa.Phi)
+	if !px && !py {
+		return false, false
+	}
+	x, y := pa.Resolve(b.X, step), pa.Resolve(b.Y, step)
+	kind := func(v ssa.Value) int { // 1 nil, 2 never nil, 0 unknown
+		switch t := strip(v, false).(type) {
+		case *ssa.Const:
+			if t.Value == nil {
+				switch t.Type().Underlying().(type) {
+				case *types.Pointer, *types.Chan, *types.Map, *types.Slice, *types.Signature, *types.Interface:
+					return 1
+				}
+			}
+		case *ssa.MakeChan, *ssa.MakeMap, *ssa.MakeSlice, *ssa.MakeClosure, *ssa.Alloc, *ssa.Function:
+			return 2
+		}
+		return 0
+	}
+	eq, known := false, false
+	kx, ky := kind(x), kind(y)
+	switch {
+	case kx == 1 && ky == 1:
+		eq, known = true, true
+	case (kx == 1 && ky == 2) || (kx == 2 && ky == 1):
+		eq, known = false, true
+	default:
+		cx, okx := strip(x, false).(*ssa.Const)
+		cy, oky := strip(y, false).(*ssa.Const)
+		if okx && oky && cx.Value != nil && cy.Value != nil && cx.Value.Kind() == cy.Value.Kind() && cx.Value.Kind() != constant.Float && cx.Value.Kind() != constant.Complex {
+			eq, known = constant.Compare(cx.Value, token.EQL, cy.Value), true
+		}
+	}
+	if !known {
+		return false, false
+	}
+	if b.Op == token.NEQ {
+		return !eq, true
+	}
+	return eq, true
+}
+
 type pathEnum struct {
 	fn       *ssa.Function
 	max      int
@@ -330,6 +382,17 @@ func (e *pathEnum) dfs(b *ssa.BasicBlock) {
 				r, n2 := normCond(r)
 				if _, still := r.(*ssa.Phi); !still {
 					rc, rneg = r, n2
+				}
+			}
+		}
+		if rc == nil {
+			// a comparison whose operands are merged by phis: on this path they are the incoming values; two constants, or
+			// nil against a freshly made object, decide the branch
+			if t, ok := evalOnPath(&Path{Fn: e.fn, Blocks: e.blocks, Succ: e.succ}, c, step); ok {
+				if t {
+					rc = ssa.NewConst(constant.MakeBool(true), types.Typ[types.Bool])
+				} else {
+					rc = ssa.NewConst(constant.MakeBool(false), types.Typ[types.Bool])
 				}
 			}
 		}
